@@ -96,7 +96,7 @@ pub fn queries_in_asset_order<const L: usize>(m: &Market<2, L>) -> bool {
 }
 
 /// one market-level operation addressed to asset `a` (concrete per harness), trading flag per cfg
-pub fn step_market_op<const N: usize, const L: usize>(m: usize, a: usize, cfg: GenCfg) {
+pub fn step_market_op<const N: usize, const L: usize, const WHICH: u8>(m: usize, a: usize, cfg: GenCfg) {
     let p0: Plain<N> = gen_plain::<N>(m, cfg);
     let mut p1: Plain<N> = gen_plain::<N>(m, cfg);
     // one clock and one trading flag are shared by construction (Market::new / set_time / toggles)
@@ -109,8 +109,9 @@ pub fn step_market_op<const N: usize, const L: usize>(m: usize, a: usize, cfg: G
     let po = if a == 0 { p1 } else { p0 };
     let (olda, oldo) = if a == 0 { (old0, old1) } else { (old1, old0) };
     let mut r = pa;
-    let which = any_u8();
-    assume(which < 8);
+    // one operation kind per harness (compile-time constant: all kinds in one formula exceed the
+    // memory budget): 0 create, 1 create+place, 2 place, 3 cancel, 4 modify, 5/6/7 the matching events
+    let which: u8 = WHICH;
     let id = any_usize();
     assume(id < m);
     let bid = any_bool();
@@ -178,7 +179,9 @@ pub fn step_market_op<const N: usize, const L: usize>(m: usize, a: usize, cfg: G
     vcheck!(queries_in_asset_order(&market), "MARKET.all_asset_queries_in_asset_order");
     vcheck!(market.get_time() == p0.t, "MARKET.shared_clock");
     vcover!(which == 1 && active(&r.e[m]), "cover.placed_on_addressed_asset");
+    vcover!(which == 5 && entry_order(&pa.e[id]).status == Status::New, "cover.new_event_routed");
     vcover!(which == 6 && active(&pa.e[id]), "cover.cancel_event_routed");
+    vcover!(which == 7 && active(&pa.e[id]), "cover.modify_event_routed");
     core::mem::forget(market);
 }
 
@@ -241,9 +244,37 @@ pub fn step_market_admin<const N: usize, const L: usize>(m: usize, cfg: GenCfg) 
 
 vharnesses! {
     #[cfg_attr(kani, kani::unwind(4))]
-    fn c14_market_op_asset0_off() { step_market_op::<3, 2>(2, 0, GenCfg { ntrades: 1, ..OFF }) }
+    fn c14_market_create_asset0_off() { step_market_op::<3, 2, 0>(2, 0, GenCfg { ntrades: 1, ..OFF }) }
     #[cfg_attr(kani, kani::unwind(4))]
-    fn c14_market_op_asset1_off() { step_market_op::<3, 2>(2, 1, GenCfg { ntrades: 1, ..OFF }) }
+    fn c14_market_create_asset1_off() { step_market_op::<3, 2, 0>(2, 1, GenCfg { ntrades: 1, ..OFF }) }
+    #[cfg_attr(kani, kani::unwind(4))]
+    fn c14_market_create_place_asset0_off() { step_market_op::<3, 2, 1>(2, 0, GenCfg { ntrades: 1, ..OFF }) }
+    #[cfg_attr(kani, kani::unwind(4))]
+    fn c14_market_create_place_asset1_off() { step_market_op::<3, 2, 1>(2, 1, GenCfg { ntrades: 1, ..OFF }) }
+    #[cfg_attr(kani, kani::unwind(4))]
+    fn c14_market_place_asset0_off() { step_market_op::<3, 2, 2>(2, 0, GenCfg { ntrades: 1, ..OFF }) }
+    #[cfg_attr(kani, kani::unwind(4))]
+    fn c14_market_place_asset1_off() { step_market_op::<3, 2, 2>(2, 1, GenCfg { ntrades: 1, ..OFF }) }
+    #[cfg_attr(kani, kani::unwind(4))]
+    fn c14_market_cancel_asset0_off() { step_market_op::<3, 2, 3>(2, 0, GenCfg { ntrades: 1, ..OFF }) }
+    #[cfg_attr(kani, kani::unwind(4))]
+    fn c14_market_cancel_asset1_off() { step_market_op::<3, 2, 3>(2, 1, GenCfg { ntrades: 1, ..OFF }) }
+    #[cfg_attr(kani, kani::unwind(4))]
+    fn c14_market_modify_asset0_off() { step_market_op::<3, 2, 4>(2, 0, GenCfg { ntrades: 1, ..OFF }) }
+    #[cfg_attr(kani, kani::unwind(4))]
+    fn c14_market_modify_asset1_off() { step_market_op::<3, 2, 4>(2, 1, GenCfg { ntrades: 1, ..OFF }) }
+    #[cfg_attr(kani, kani::unwind(4))]
+    fn c14_market_event_new_asset0_off() { step_market_op::<3, 2, 5>(2, 0, GenCfg { ntrades: 1, ..OFF }) }
+    #[cfg_attr(kani, kani::unwind(4))]
+    fn c14_market_event_new_asset1_off() { step_market_op::<3, 2, 5>(2, 1, GenCfg { ntrades: 1, ..OFF }) }
+    #[cfg_attr(kani, kani::unwind(4))]
+    fn c14_market_event_cancel_asset0_off() { step_market_op::<3, 2, 6>(2, 0, GenCfg { ntrades: 1, ..OFF }) }
+    #[cfg_attr(kani, kani::unwind(4))]
+    fn c14_market_event_cancel_asset1_off() { step_market_op::<3, 2, 6>(2, 1, GenCfg { ntrades: 1, ..OFF }) }
+    #[cfg_attr(kani, kani::unwind(4))]
+    fn c14_market_event_modify_asset0_off() { step_market_op::<3, 2, 7>(2, 0, GenCfg { ntrades: 1, ..OFF }) }
+    #[cfg_attr(kani, kani::unwind(4))]
+    fn c14_market_event_modify_asset1_off() { step_market_op::<3, 2, 7>(2, 1, GenCfg { ntrades: 1, ..OFF }) }
     #[cfg_attr(kani, kani::unwind(4))]
     fn c14_market_admin() { step_market_admin::<3, 2>(2, GenCfg { ntrades: 1, ..CFG }) }
 }
